@@ -42,47 +42,47 @@ def stateReply (t : TS) : String :=
   "digest=" ++ digest t ++ " inv=" ++ (match t.inv with | none => "ok" | some c => "FAIL:" ++ c)
 
 /-- apply a state-changing request; `none` = the model rejects it (precondition / protocol violated) -/
-def stepTree (t : TS) (cmd : String) (a : List (String × String)) : Option TS :=
-  match cmd with
-  | "write" => (arg a "es").bind parseEntries |>.bind t.write
-  | "rotate" => (natArg a "mem").map t.rotate
-  | "flush" => do
-    let mem ← natArg a "mem"
-    let wm ← natArg a "wm"
-    let cuts ← (arg a "cuts").bind parseCuts
-    (t.rotate mem).flushSealed wm cuts
-  | "merge" => do
-    let ids ← (arg a "ids").bind parseNats
-    let dest ← natArg a "dest"
-    let wm ← natArg a "wm"
-    let fs ← arg a "filter"
-    let f ← (if fs == "none" then some noFilter else do
-      let seed ← fs.toNat?
-      let once ← (splitList "," ((arg a "once").getD "")).mapM bytesOfHex
-      pure (fun e => match seededTreeFilter (UInt64.ofNat seed) once e with
-        | .replace .value v => .replace (separate t.blobTh ({ e with vt := .value, val := v } : E)).vt v
-        | r => r))
-    let cuts ← (arg a "cuts").bind parseCuts
-    t.mergeCommit ids dest wm f cuts
-  | "move" => do
-    let ids ← (arg a "ids").bind parseNats
-    let dest ← natArg a "dest"
-    let wm ← natArg a "wm"
-    t.moveCommit ids dest wm
-  | "drop" => do
-    let ids ← (arg a "ids").bind parseNats
-    let wm ← natArg a "wm"
-    t.dropCommit ids wm
-  | "clear" => (natArg a "mem").bind t.clear
-  | "ingest" => do
-    let mem ← natArg a "mem"
-    let fcuts ← (arg a "fcuts").bind parseCuts
-    let items ← (arg a "items").bind parseEntries
-    let cuts ← (arg a "cuts").bind parseCuts
-    let t1 ← (t.rotate mem).flushSealed 0 fcuts false
-    t1.ingestCommit items cuts
-  | "reopen" => t.reopen
-  | _ => none
+def stepTree (t : TS) (cmd : String) (a : List (String × String)) : Option TS := do
+  let op : Op BK ← (match cmd with
+    | "write" => (arg a "es").bind parseEntries |>.map Op.write
+    | "rotate" => (natArg a "mem").map Op.rotate
+    | "flush" => do
+      let mem ← natArg a "mem"
+      let wm ← natArg a "wm"
+      let cuts ← (arg a "cuts").bind parseCuts
+      pure (Op.flush wm mem cuts)
+    | "merge" => do
+      let ids ← (arg a "ids").bind parseNats
+      let dest ← natArg a "dest"
+      let wm ← natArg a "wm"
+      let fs ← arg a "filter"
+      let f ← (if fs == "none" then some noFilter else do
+        let seed ← fs.toNat?
+        let once ← (splitList "," ((arg a "once").getD "")).mapM bytesOfHex
+        pure (fun e => match seededTreeFilter (UInt64.ofNat seed) once e with
+          | .replace .value v => .replace (separate t.blobTh ({ e with vt := .value, val := v } : E)).vt v
+          | r => r))
+      let cuts ← (arg a "cuts").bind parseCuts
+      pure (Op.merge ids dest wm f cuts)
+    | "move" => do
+      let ids ← (arg a "ids").bind parseNats
+      let dest ← natArg a "dest"
+      let wm ← natArg a "wm"
+      pure (Op.move ids dest wm)
+    | "drop" => do
+      let ids ← (arg a "ids").bind parseNats
+      let wm ← natArg a "wm"
+      pure (Op.drop ids wm)
+    | "clear" => (natArg a "mem").map Op.clear
+    | "ingest" => do
+      let mem ← natArg a "mem"
+      let fcuts ← (arg a "fcuts").bind parseCuts
+      let items ← (arg a "items").bind parseEntries
+      let cuts ← (arg a "cuts").bind parseCuts
+      pure (Op.ingest mem fcuts items cuts)
+    | "reopen" => some Op.reopen
+    | _ => none)
+  t.applyOp op
 
 def showKv (o : Option E) : String :=
   match o with
